@@ -6,8 +6,8 @@ import codec, targets, cont
 
 MODEL_TARGETS = ["model/De.vo", "model/Reader.vo"]
 COQ_TARGETS = ["props/C11.vo", "proofs/ConstsTie.vo"]
-THEOREMS = [("C11", ["C11_varint", "C11_de", "C11_datum", "C11_container"])]
-PROOF_FILES = ["proofs/ReaderProofs.v", "proofs/VarintProofs.v", "props/C11.v", "proofs/ContainerChunkProofs.v", "proofs/ContainerReadProofs.v"]
+THEOREMS = [("C11", ["C11_varint", "C11_de", "C11_datum", "C11_container", "C11_compressed_file_chunk_independent"])]
+PROOF_FILES = ["proofs/ReaderProofs.v", "proofs/VarintProofs.v", "props/C11.v", "proofs/ContainerChunkProofs.v", "proofs/ContainerReadProofs.v", "proofs/DecodeLoopProofs.v", "proofs/ContainerCodecProofs.v"]
 TRUSTED_BASE = [
     "Coq 8.16.1 kernel; no axioms (Print Assumptions: closed)",
     "hand-written model/Reader.v of de/read/mod.rs (SliceRead; ReaderRead over a BufRead whose fill_buf follows a chunk plan; the byte-wise varint gathering path), model/De.v, model/Varint.v of integer-encoding 4.1.0; tied by the correspondence run under every chunk size",
@@ -15,7 +15,7 @@ TRUSTED_BASE = [
 ]
 ASSUMPTIONS = [
     "side condition of the property: no field larger than max_alloc_size (theorem: input length <= max_alloc)",
-    "container files: proved for the null codec (C11_container: same metadata, values and end of stream for any chunk plan); one compressed block: proved for any chunking of the source under the decoder contract (DecodeLoop.v: C05_compressed_block_read_back quantifies over the chunk state); whole compressed files on the crate (compression libraries are outside the model)",
+    "container files: proved for the null codec (C11_container: same metadata, values and end of stream for any chunk plan); compressed files: proved for files written by the writer model with any block codec, for any chunking of the source, under the decoder contract (C11_compressed_file_chunk_independent; model/ContainerCodec.v); a general 'any accepted file reads identically under any chunking' is NOT provable for an abstract decoder (it sees the chunk plan and may depend on it outside its contract) and is decided on the crate (compression libraries are outside the model)",
 ]
 
 def run(ctx):
